@@ -12,7 +12,7 @@ from ..harness import violation
 from ..spaces import chunks
 
 PID = 'C20'
-MAX_TASKS_PER_CHILD = 6     # a small per-widget leak remains in ipywidgets/anywidget: workers are replaced regularly
+# (ProcessPoolExecutor(max_tasks_per_child=...) deadlocks on this Python version, so the remaining ~4 KB per widget are tolerated)
 LEVEL = 'model_checking'
 RULE = ('scene = tuple of leaves from a menu {colour int, string, multivector in 5 layouts x 3 backings, array-valued (n,2) and (n,2,2), nullary callable '
         'returning a multivector that depends on another one, callable returning a list} plus nesting wrappers (list, tuple, root callable); all scenes up to '
